@@ -108,6 +108,7 @@ static const struct mc_harness *H;
 static int g_argc;
 static char **g_argv;
 static int verbose;
+static int ignore_abnormal;
 static char errfile[256];
 static const char *rundir = "/verif/build/run";
 
@@ -627,8 +628,13 @@ static void process_result(int cls, uint32_t plen)
 		return;
 	}
 	if (cls == 2) {
-		atomic_fetch_add(&S->abnormal, 1);
-		record_violation();
+		const char *r = (char *)XB->rule;
+		int abn = !strcmp(r, "sanitizer") || !strcmp(r, "crash") || !strcmp(r, "hang") ||
+			  !strcmp(r, "lib-fatal") || !strcmp(r, "unexpected-exit");
+		if (abn)
+			atomic_fetch_add(&S->abnormal, 1);
+		if (!(abn && ignore_abnormal))
+			record_violation();
 	}
 
 	for (i = 0; i < XB->nch; i++) {
@@ -823,6 +829,7 @@ int mc_main(int argc, char **argv, const struct mc_harness *h)
 	g_argv = argv;
 	H = h;
 	verbose = mc_arg_int("verbose", 0);
+	ignore_abnormal = mc_arg_int("abn_ignore", 0);
 	bound_to = mc_arg_int("bound", 1);
 	bound_from = mc_arg_int("bound_from", bound_to);
 	nworkers = mc_arg_int("workers", 16);
